@@ -319,3 +319,18 @@ def reverse_set(case, res):
                         'tasks %s have more than one execution' % dup,
                         'dup'))
     return out
+
+
+def reset_by_route_ids(res):
+    """ids of tasks that a later inbound route put back to WAITING
+    (KNOWN_FINDINGS F3)."""
+    out = set()
+    hist = History(res)
+    for cno, step, actor, changes in hist.iterate():
+        for table, id_, old, new in changes:
+            if table == TASK and new is not None and old is not None and \
+                    new.get('state') == 'WAITING' and \
+                    old.get('state') not in (None, 'WAITING') and \
+                    (new.get('state_info') or '') == 'Task is waiting.':
+                out.add(id_)
+    return out
